@@ -118,6 +118,25 @@ def acyclic(facts):
         if kind == "Graph" and inner:
             after = reach(b, inner[0][0])
             rekey = [i for (i, c, t) in calls if c.endswith("OrderMap::set_position") and i in after]
+            # the position carried over must be the MOVED node's own position
+            if rekey:
+                st_call = [t for (i, c, t) in calls if c.endswith("OrderMap::set_position") and i in after][0]
+                pe = b.expr(st_call["args"][2], 10, named_leaf=True) if len(st_call["args"]) > 2 else None
+                gp = [t for (i, c, t) in calls if c.endswith("OrderMap::get_position")]
+                moved_roots = set()
+                for (i, c, t) in calls:
+                    if c.endswith("OrderMap::remove_node") and i in after and len(t["args"]) > 1:
+                        moved_roots |= named_roots(b, t["args"][1])
+                src_ok = False
+                for t in gp:
+                    if len(t["args"]) > 1 and named_roots(b, t["args"][1]) & moved_roots:
+                        dl = t["dest"]["l"]
+                        if pe is not None and (("local", dl) in leaves(pe) or any(x[0] == "local" and b.lname(x[1]) and
+                                                                               b.single_def(x[1]) == ("call", [i for (i, c, t2) in calls if t2 is t][0]) for x in leaves(pe))):
+                            src_ok = True
+                o.check(b, "Graph:rekey-source", b.line, src_ok, "the re-keyed position is get_position(moved node)",
+                        "the position given to the renumbered node is not the moved node's own position (get_position(moved)): it would inherit the "
+                        "removed node's position, leaving an edge that points backwards in the order")
             o.check(b, "Graph:rekey", b.line, bool(rekey), "Graph::remove_node (renumbers the last node) is followed by OrderMap::set_position (re-keying)",
                     "Graph::remove_node moves the last node into the freed index, but the order map (indexed by node index) is not re-keyed "
                     "afterwards: the moved node loses its position and the order names a dead index")
